@@ -11,8 +11,8 @@ Local Open Scope list_scope.
 (* detect: exactly one line per file, in order: the class the library assigns (with
    "(completed)") on stdout, or the file marked invalid on stderr *)
 Theorem C19_detect_line :
-  forall (name : str) (f : file_res),
-  detect_one false (name, f) =
+  forall (o : oracles) (name : str) (f : file_res),
+  detect_one o false (name, f) =
   match load f with
   | inl _ => [Err (name ++ lit ": Invalid")]
   | inr (k, d) => [Out (name ++ lit ": " ++ class_name k ++ (if completed k d then lit " (completed)" else []))]
@@ -23,14 +23,14 @@ Print Assumptions C19_detect_line.
 (* one bad or unreadable file never prevents the others from being processed: the output for
    a list is the concatenation of the outputs for its parts (detect and inspect), status 0 *)
 Theorem C19_detect_compositional :
-  forall (b : bool) (fs1 fs2 : list (str * file_res)),
+  forall (o : oracles) (b : bool) (fs1 fs2 : list (str * file_res)),
   fs1 <> [] -> fs2 <> [] ->
-  fst (detect_cmd b (fs1 ++ fs2)) = fst (detect_cmd b fs1) ++ fst (detect_cmd b fs2).
+  fst (detect_cmd o b (fs1 ++ fs2)) = fst (detect_cmd o b fs1) ++ fst (detect_cmd o b fs2).
 Proof. exact detect_compositional. Qed.
 Print Assumptions C19_detect_compositional.
 
 Theorem C19_detect_status :
-  forall (b : bool) (fs : list (str * file_res)), fs <> [] -> snd (detect_cmd b fs) = 0.
+  forall (o : oracles) (b : bool) (fs : list (str * file_res)), fs <> [] -> snd (detect_cmd o b fs) = 0.
 Proof. exact detect_status. Qed.
 Print Assumptions C19_detect_status.
 
